@@ -26,6 +26,8 @@ package tq
 //@   requires @inv q.wait != nil && !q.wait.abort && res.Transfer != nil && q.rc != nil
 //@   ensures @C06 old(has(q.transfers, res.Transfer.Oid)) ==> (q.wait.counter == old(q.wait.counter) - 1 && chsent(retries) == old(chsent(retries))) || (q.wait.counter == old(q.wait.counter) && chsent(retries) == old(chsent(retries)) + 1)
 //@   at send c assert @C06 res.Error == nil
+//@   at send c assert @C06 locked(q.trMutex)
+//@   ensures @C06 res.Error == nil ==> lockcount(q.trMutex) == old(lockcount(q.trMutex)) + 1 && !locked(q.trMutex)
 //@   at send retries assert (err_retriable(res.Error) || err_retriable_later(res.Error)) && q.rc.count[oid] < q.rc.MaxRetries
 //@   at send retries assert err_retriable_later(res.Error) ==> mapval__.retryLaterTime == err_retry_time(res.Error)
 
